@@ -1893,6 +1893,9 @@ func (h *Hub) processJoinRoom(session *ClientSession, message *ClientMessage, ro
 	session.SetRoom(r)
 	if room.Room.Permissions != nil {
 		session.SetPermissions(*room.Room.Permissions)
+		// Publishers created before the room was joined must match the
+		// permissions of the session in the room.
+		session.closePublishersWithoutPermission()
 	}
 	h.sendRoom(session, message, r)
 	r.AddSession(session, room.Room.Session)
